@@ -299,7 +299,7 @@ def near_umi(rng, u, dist):
 def gen_library(rng, tier):
     kind = rng.choice(['nla', 'nla', 'chic', 'chic', 'plain'])
     hd = rng.choice([0, 0, 1, 1, 2])
-    radius = 0 if kind == 'nla' else rng.choice([0, 0, 0, 3, 10])
+    radius = 0 if kind == 'nla' else rng.choice([0, 0, 0, 1, 1, 3, 10])
     if kind == 'nla' and rng.random() < 0.3:
         radius = 1000                  # the NLA default; ignored by the site hash
     cap = rng.choice([0, 0, 0, 0, 1, 2, 3])
@@ -335,6 +335,13 @@ def gen_library(rng, tier):
                         u = list(umis[0])
                         npos = rng.randrange(ulen)
                         u[npos] = 4                      # N
+                        if hd and ulen - 1 >= hd + 1 and rng.random() < 0.3:
+                            # a second UMI with N at the SAME position, differing on hd or hd + 1 called positions
+                            v = list(u)
+                            for q in rng.sample([x for x in range(ulen) if x != npos], hd + rng.randint(0, 1)):
+                                v[q] = rng.choice([x for x in range(4) if x != v[q]])
+                            umis = [u, v]
+                            break
                         if hd and ulen - 1 >= hd and rng.random() < 0.5:
                             # ... and the only other UMI differs from it on exactly hd known positions
                             v = list(umis[0])
@@ -522,8 +529,10 @@ def directed_libraries():
             out.append((dict(base, hd=0), [f(1, 1, 0, 100, u), f(1, 1, 0, 100, u, valid=False, how='qcfail'), f(1, 1, 0, 100, u, flen=9)]))
             if kind != 'nla':
                 # sites within / just outside the radius
-                for rad in (2, 5):
+                for rad in (1, 2, 5):
                     out.append((dict(base, hd=0, radius=rad), [f(1, 1, 0, 100 + k, u) for k in (0, rad, rad + 1, 2 * rad, 2 * rad + 1)]))
+                    # the same UMI again far away on the same cell / contig / strand
+                    out.append((dict(base, hd=0, radius=rad), [f(1, 1, st, 100 + k, u) for st in (0, 1) for k in (0, 40, 300, 5000)]))
                     for strand in (0, 1):       # exactly radius apart (may join) / radius + 1 apart (must stay apart)
                         out.append((dict(base, hd=0, radius=rad), [f(1, 1, strand, 100, u), f(1, 1, strand, 100 + rad, u)]))
                         out.append((dict(base, hd=0, radius=rad), [f(1, 1, strand, 100, u), f(1, 1, strand, 100 + rad + 1, u), f(1, 1, strand, 100 + rad + 1, u, flen=9)]))
@@ -545,6 +554,14 @@ def directed_libraries():
                         [f(1, 1, 0, 100, u)] + [f(c, 1, 0, 100, x) for c in (2, 3) for x in (u, v1)] + [f(1, 1, 0, 100, u, flen=9)]
                         + [f(c, 1, 0, 101, x) for c in (2, 3) for x in (u, v1)] + [f(1, 1, 1, 100, u, flen=20), f(1, 1, 1, 103, u, flen=9),
                                                                                     f(1, 1, 1, 100, u, flen=12)]))
+            # two UMIs that both contain N: N at the SAME position and hd + 1 differences on the called positions (must stay
+            # apart), N at the same position and exactly hd differences (may join), N at different positions
+            for hd, ua, ub_far, ub_near, uc in ((1, [N, 0, 1, 2, 3], [N, 3, 2, 2, 3], [N, 3, 1, 2, 3], [0, N, 2, 2, 3]),
+                                              (2, [N, 0, 1, 2, 3], [N, 3, 2, 0, 3], [N, 3, 2, 2, 3], [1, 3, N, 0, 3]),
+                                              (1, [0, 1, N, N], [1, 0, N, N], [1, 1, N, N], [0, N, 1, N])):
+                for x, y in ((ua, ub_far), (ub_far, ua), (ua, ub_near), (ua, uc), (uc, ub_far)):
+                    out.append((dict(base, hd=hd, keep_order=True), [f(1, 1, 0, 100, x), f(1, 1, 0, 100, y, flen=9), f(1, 1, 0, 100, x, flen=10),
+                                                                    f(1, 1, 1, 100, y), f(1, 1, 1, 100, x, flen=9)]))
             # UMIs exactly hd + 1 apart must stay apart
             for hd, far in ((0, v1), (1, v2), (2, [1, 1, 1])):
                 out.append((dict(base, hd=hd), [f(1, 1, 0, 100, u), f(1, 1, 0, 100, far), f(1, 1, 0, 100, u, flen=9), f(1, 1, 0, 100, far, flen=9)]))
@@ -659,7 +676,7 @@ def run_schedules(kind, cfg, frs, rng, tid, scheds=None, poolings=(0, 1), model=
 def gen_sequence(rng, tier):
     kind = rng.choice(['nla', 'chic', 'plain'])
     hd = rng.choice([0, 0, 1])
-    radius = 0 if kind == 'nla' else rng.choice([0, 0, 2, 4])
+    radius = 0 if kind == 'nla' else rng.choice([0, 0, 1, 2, 4])
     cache = rng.choice([16, 20, 24, 40, 41])
     half = cache // 2
     paired = rng.random() < 0.5
@@ -770,9 +787,24 @@ def directed_sequences():
         # a tie: the candidate shares its END with the older molecule and its START with the newer one (first-fit: the older)
         out.append(('plain', cfg, [f(0, 100, 10), f(0, 105, 15), f(0, 105, 5)]))
         out.append(('plain', cfg, [f(0, 100, 10), f(0, 105, 15), f(0, 100, 8, cell=2), f(0, 105, 5), f(0, 105, 15), f(0, 100, 10)]))
+        # ... with an older unrelated molecule that is ejected while both candidates are open (the survivors must keep their
+        # order: first-fit picks the older one under every schedule), one and two ejectable molecules, and twice in a row
+        out.append(('plain', cfg, [f(0, 50, 5, umi=(3, 3)), f(0, 100, 10), f(0, 105, 15), f(0, 105, 5)]))
+        out.append(('plain', cfg, [f(0, 50, 5, umi=(3, 3)), f(0, 51, 5, umi=(2, 2)), f(0, 100, 10), f(0, 105, 15), f(0, 105, 5), f(0, 105, 5)]))
+        out.append(('plain', cfg, [f(0, 50, 5, umi=(3, 3)), f(0, 100, 10), f(0, 104, 12, umi=(2, 2)), f(0, 105, 15), f(0, 105, 5),
+                                   f(0, 104, 6, umi=(2, 2))]))
         # finding D61: the candidate matches an INTERIOR member only (end 110 < envelope end 115, start 102 > envelope start 100):
         # pooling 0 (member comparison) groups it, pooling 1 (envelope comparison) does not
         out.append(('plain', cfg, [f(0, 100, 10), f(0, 100, 15), f(0, 102, 8)]))
+    # UMI ties at hamming 1 (NLA / CHiC, pooling 0 compares with members): AA and CC are two molecules of one site, AC is
+    # within 1 of both and has to join the older one under every schedule, also after an older molecule was ejected in between
+    for kind in ('nla', 'chic'):
+        for cache in (40, 48):
+            cfg = {'hd': 1, 'radius': 0, 'cache': cache, 'readlen': SINGLE, 'keep_order': True}
+            out.append((kind, cfg, [f(0, 50, 6, umi=(3, 3)), f(0, 100, 10, umi=(0, 0)), f(0, 100, 11, umi=(1, 1)), f(0, 100, 12, umi=(0, 1)),
+                                    f(0, 100, 9, umi=(0, 1))]))
+            out.append((kind, cfg, [f(0, 50, 6, umi=(3, 3)), f(0, 52, 6, umi=(2, 2)), f(1, 100, 10, umi=(0, 0)), f(1, 100, 8, umi=(1, 1)),
+                                    f(1, 100, 6, umi=(0, 1))]))
     # cache sizes above the default 10,000 and long fragments (span <= cache/2): a long fragment of another cell fires the
     # check while a short molecule at the same start still receives copies (ties in start: order as listed)
     for kind in ('nla', 'plain', 'chic'):
